@@ -88,6 +88,8 @@ func runC06(c *Ctx) {
 	// (every command has a handler, unknown commands are errors, operand counts, stack clearing:
 	// all decided by the command table above; no rule locates the command switch in the syntax)
 	c.t1FlexRules()
+	// closepath closes the sub-path whatever the decoder's state (Type 1 book §6.4 attaches no condition)
+	c.closePathRule()
 	c.subrRules(nil, nil)
 	c.charstringDecryption()
 	c.readDefaults()
@@ -96,6 +98,7 @@ func runC06(c *Ctx) {
 	c.subrsTableB()
 	c.lenIVGuards()
 	c.seacRules()
+	c.shareCopyRule("type1", "T1-SHARECOPY")
 	c.glyphOpSwitches()
 	c.glyphOpLiterals()
 	c.containerDetection()
